@@ -32,7 +32,19 @@ TEMPO = [[0, 120000]]
 
 
 def _items(phrases, note_ticks):
-    keyed = [(t, 0, i, [t, "N", i % 5, 0]) for i, t in enumerate(note_ticks)]
+    # notes vary in shape (single, chord, open, tap-flagged) and carry sustains that may reach into or
+    # across phrases: membership is decided by the note's own tick only
+    keyed = []
+    for i, t in enumerate(note_ticks):
+        sus = (i % 4) * 2
+        if i % 7 == 3:
+            keyed.append((t, 0, 2 * i, [t, "N", 7, sus]))
+        else:
+            keyed.append((t, 0, 2 * i, [t, "N", i % 5, sus]))
+            if i % 3 == 0:
+                keyed.append((t, 0, 2 * i + 1, [t, "N", (i + 2) % 5, (i % 2) * 3]))
+        if i % 5 == 4:
+            keyed.append((t, 0, 2 * i + 1, [t, "N", 6, 0]))
     keyed += [(p[0], 1, k, [p[0], "S", 2, p[1]]) for k, p in enumerate(phrases)]
     keyed.sort(key=lambda x: (x[0], x[1], x[2]))
     return [x[3] for x in keyed]
